@@ -199,10 +199,8 @@ double GammaQint(double x, double a)
 		};
 		if(x < tMin)
 			tMin = 0.0;
-		// Precision
-		double eps = Find_Epsilon(integrand, tMin, x, 1e-5);
-		// Integrate
-		gammaP = Integrate(integrand, tMin, x, eps);
+		// Integrate (adaptive Gauss-Kronrod; a three-point estimate of the required precision is unreliable for this peaked integrand)
+		gammaP = Integrate(integrand, tMin, x, "Gauss-Kronrod");
 	}
 	// The quadrature error can push the result slightly outside the range of a probability.
 	gammaP = std::min(1.0, std::max(0.0, gammaP));
